@@ -20,11 +20,14 @@
      integers                      |z| <= 2^53 and the field type does not end in interface{}
                                    (int_target: string, bool, int*, uint*, float*, pointers / slices of those,
                                    and map / struct targets, where both routes fail alike)
+     floats                        in normal form (the harness always presents them so), of a magnitude that
+                                   %v writes in plain digits: 0 or 1e-4 <= |x| < 1e6 (dec_top_safe), any field type
      lists / maps                  [jsafe]: every string and key is JSON-plain (printable ASCII without
-                                   " \ < > &), every integer is <= 2^53 in magnitude, keys strictly sorted
-                                   (the canonical presentation of a Go map), no floats; and [nsafe T]: no
-                                   integer of the value is decoded into an interface-typed position of T
-     nil, floats                   not in [safe] (nil is "absent"; floats: see KF-C17g and the note at the end)
+                                   " \ < > &), every integer is <= 2^53 in magnitude, every float is 0 or
+                                   1e-6 <= |x| < 1e21 (encoding/json's plain-digit range), keys strictly sorted (the
+                                   canonical presentation of a Go map); and [nsafe T]: no integer of the value is
+                                   decoded into an interface-typed position of T
+     nil                           not in [safe] (nil is "absent": both routes report "required")
    Strings INSIDE lists and maps may be number-like, bool-like, quoted or bracketed: they travel
    JSON-quoted and survive.  Outside [safe] the statement is false of the faithful model of the
    unchanged code: one refuted theorem per known-finding class KF-C17a..i. *)
@@ -115,7 +118,7 @@ Definition ex_safe_type : ftype :=
            ([111;112;116;115]%N, TPtr (TMap (TSlice (TFloat 64)))); ([109;105;115;115;105;110;103]%N, TAny)].
 Definition ex_safe_value : cval :=
   VMap [([110;97;109;101]%N, VStr [104;101;108;108;111;32;119;111;114;108;100]%N);
-        ([111;112;116;115]%N, VMap [([97]%N, VList [VInt 1; VInt (-250)]); ([98]%N, VInt 9007199254740992)]);
+        ([111;112;116;115]%N, VMap [([97]%N, VList [VInt 1; VInt (-250); VDec 125 (-2); VDec (-5) (-6)]); ([98]%N, VInt 9007199254740992)]);
         ([112]%N, VInt 8080);
         ([116;97;103;115]%N, VList [VStr [49;46;49;48]%N; VStr [84;82;85;69]%N; VStr [39;113;39]%N; VInt 7; VBool true; VNull])].
 Example c17_paths_agree_ex :
@@ -123,6 +126,13 @@ Example c17_paths_agree_ex :
   bind_formatted ex_safe_value ex_safe_type = bind_prefix ex_safe_value ex_safe_type /\
   (exists f, bind_prefix ex_safe_value ex_safe_type = Ok f).
 Proof. split; [vm_compute; reflexivity|]. split; [vm_compute; reflexivity|]. eexists. vm_compute. reflexivity. Qed.
+
+(* floats of everyday magnitude, into every kind of field *)
+Example c17_paths_agree_float_ex :
+  safe (VDec 31415 (-4)) (TSlice TString) = true /\ safe (VDec (-25) (-5)) TAny = true /\ safe (VDec 999999 0) (TInt 8) = true /\
+  bind_formatted (VDec 31415 (-4)) (TSlice TString) = Ok (FSlice [FStr [51;46;49;52;49;53]%N]) /\
+  safe (VDec 1 6) TString = false.
+Proof. repeat split; vm_compute; reflexivity. Qed.
 
 Definition ex_key : bytes := [97;112;112;46;99;102;103]%N.      (* app.cfg *)
 Example c17_paths_agree_key_ex :
@@ -202,8 +212,3 @@ Proof.
   exists (cfg_of [([107]%N, VStr [36;123;110;111;107;101;121;58;55;125;120]%N)]), [107]%N, TString.
   split; [reflexivity|differ].
 Qed.
-
-(* Note on floats.  A float64 is outside [safe] although most floats of everyday magnitude do agree on
-   both routes in the implementation (and in the model: evaluated on every run by the correspondence
-   check); the proof of the FormatFloat / ParseFloat round trip on fraction digits is not part of this
-   file.  c17_float_eform_refuted shows that no statement for ALL floats can hold. *)
